@@ -284,9 +284,9 @@ func init() {
 			"distinct = distinct source text; non-trivial = nesting depth >= 2",
 		N: func(tier string) int {
 			if tier == "thorough" {
-				return len(c17Systematic())*3 + 500000
+				return len(c17Systematic())*3 + 10000000
 			}
-			return len(c17Systematic())*3 + 20000
+			return len(c17Systematic())*3 + 500000
 		},
 		Run: func(ctx *fw.Ctx, i int) fw.Result {
 			sys := c17Systematic()
